@@ -16,6 +16,7 @@ let model toks =
         (fun ((pn, acc), bs) ->
           Buffer.add_string b (Printf.sprintf "%s:%d:%s;" (string_of_n pn) (acc_code acc) (hex_of_bytes (trim bs))))
         pages;
+      Buffer.add_string b " alias=ok";
       Buffer.contents b)
   | _ -> "BADCASE"
 let () = run_cases model
